@@ -390,6 +390,8 @@ class P(Prop):
         ("TracklibVerif.Props.C01", "TV.C01.read_after_setObs", "writing one cell changes that cell only"),
         ("TracklibVerif.Props.C01", "TV.C01.read_after_remove", "deleting a listed feature (any column position) unlists it and leaves what is read under every other name unchanged"),
         ("TracklibVerif.Props.C01", "TV.C01.prims_keep_coords", "create/update/remove/setObs on a feature name never touch X, Y, Z, T"),
+        ("TracklibVerif.Props.C01", "TV.C01.step_frame", "no side effects: for every API call (operators, operate(str) on any RPN; returning or raising) a name it does not designate - feature, x, y, z, t or idx - reads as before and stays listed/unlisted"),
+        ("TracklibVerif.Props.C01", "TV.C01.sum_keeps_table", "the non-void aggregate SUM leaves the whole table as it was"),
         ("TracklibVerif.Props.C01", "TV.C01.no_temporaries", "after operate(str) no listed name starts with '#', whether evaluation returned or raised"),
     ]
     partial = []
